@@ -53,6 +53,7 @@ def main():
     cex, tried = C.falsify(chk, order, budget + len(disagreeing) + len(fam['boundary']) + len(fam['corpus']) + len(fam['context']))
     chk.evaluations += tried
     chk.coverage['falsifier'] = {'strings_vs_printf_reference_and_glibc': tried, 'glibc_available': C.glibc_count('%d') is not None,
+                                 'glibc_types_compared': C.STATS['glibc_types_compared'], 'glibc_types_platform_lp64': C.lp64(),
                                  'found': cex is not None}
     if cex is None and chk.broken:
         chk.violation('proof obligation or correspondence no longer checks', {'broken': chk.broken}, no_input=True)
